@@ -104,6 +104,8 @@ def diff_snapshots(a, b, path=""):
             if d:
                 return d
         return None
+    if isinstance(a, float) and isinstance(b, float) and math.isnan(a) and math.isnan(b):
+        return None
     try:
         same = a == b
         if isinstance(same, (np.ndarray, pd.Series, pd.DataFrame)):
